@@ -121,8 +121,11 @@ func populateLabels(lset labels.Labels, cfg *config.ScrapeConfig) (res, orig lab
 }
 
 // targetsFromGroup builds activeTargets based on the given TargetGroup and config.
-func targetsFromGroup(tg *targetgroup.Group, cfg *config.ScrapeConfig) ([]*SDTargets, error) {
+// a target that can not be created is reported in failures, the other targets of the group are not affected
+// (as prometheus scrape.TargetsFromGroup does)
+func targetsFromGroup(tg *targetgroup.Group, cfg *config.ScrapeConfig) ([]*SDTargets, []error) {
 	targets := make([]*SDTargets, 0, len(tg.Targets))
+	failures := []error{}
 	exists := map[uint64]bool{}
 
 	for i, tlset := range tg.Targets {
@@ -141,7 +144,7 @@ func targetsFromGroup(tg *targetgroup.Group, cfg *config.ScrapeConfig) ([]*SDTar
 
 		lbls, origLabels, err := populateLabels(lset, cfg)
 		if err != nil {
-			return nil, errors.Wrapf(err, "instance %d in group %s", i, tg)
+			failures = append(failures, errors.Wrapf(err, "instance %d in group %s", i, tg))
 		}
 
 		if lbls != nil || origLabels != nil {
@@ -161,7 +164,7 @@ func targetsFromGroup(tg *targetgroup.Group, cfg *config.ScrapeConfig) ([]*SDTar
 			})
 		}
 	}
-	return targets, nil
+	return targets, failures
 }
 
 func targetHash(lbls labels.Labels, url string) uint64 {
